@@ -44,7 +44,8 @@ func rulePanicCensus(w *World, r *RuleResult) {
 					if n > 1 {
 						key = fmt.Sprintf("%s #%d", key, n)
 					}
-					if why := panicTable[name]; why != "" && n == 1 {
+					owner := w.ownerIn(f, []string{"roundAddOne", "(Condition).String", "(*Decimal).Decompose"})
+					if why := panicTable[owner]; why != "" && n == 1 {
 						r.ok(key, w.instrPos(in), "tabled: "+why, false)
 					} else {
 						r.bad(key, w.instrPos(in), "explicit panic reachable from the exported API; failures must be reported through the error or Condition result")
@@ -57,7 +58,11 @@ func rulePanicCensus(w *World, r *RuleResult) {
 	cc := w.conditionConsts()
 	if f := w.fn("(Condition).String"); f != nil {
 		seen := map[uint64]bool{}
-		for _, b := range f.Blocks {
+		var sblocks []*ssa.BasicBlock
+		for _, g := range w.closureFuncs(f) {
+			sblocks = append(sblocks, g.Blocks...)
+		}
+		for _, b := range sblocks {
 			for _, in := range b.Instrs {
 				if bo, ok := in.(*ssa.BinOp); ok && bo.Op == token.EQL {
 					for _, o := range []ssa.Value{bo.X, bo.Y} {
